@@ -67,6 +67,14 @@ def run(res, ctx):
             body = "".join(rng.choice(ML).format(a=a, b=b) for a, b in pairs[i * per:(i + 1) * per])
             sources.append(body + nosecify(progs.make_program(rng, k=4)[0]))
         sources.append("import pickle  # nosec\nimport subprocess  # nosec\npickle.loads(b)  # nosec\n")
+        # many small modules whose findings sit on nodes WITHOUT a position of their own (string defaults under `arguments`), of different shapes: anything remembered
+        # about one file's tree (by object identity, say) is stale once that tree is gone (seeded change C08-m11 memoised line ranges in a module-level table
+        # keyed by id(node): after a dozen files a new node landed on an old address and took over its range)
+        for gi in range(24 if thorough else 16):
+            pad = "\n" * (gi % 5)
+            sources.append("import os\n" + pad + "".join(
+                "def part%d_%d(a, %s,\n          scratch='/tmp/p%d_%d',\n%s          host='0.0.0.0'):\n    return a\n\n\n" % (gi, k, "b=%d" % k, gi, k, "          c=None,\n" * ((gi + k) % 3))
+                for k in range(2 + gi % 3)) + "x%d = lambda t='/var/tmp/q', *, u='/dev/shm/z': t\n" % gi)
         root = os.path.join(scratch.root, "cos"); os.makedirs(root)
         paths = []
         for i, s in enumerate(sources):
@@ -287,6 +295,24 @@ def run(res, ctx):
                                   {"format": fmt, "seeds": [ref[0], sd], "tree": "pkg/{Settings,settings,SETTINGS}.py Lib/x.py lib/{x,X}.py a/B.py A/b.py z\u00e9.py ze\u0301.py Z\u00c9.py",
                                    "first_difference_at": i, "a": ref[1][max(0, i - 100):i + 100], "b": text[max(0, i - 100):i + 100]})
                     break
+        # a message that quotes a set display (listed known finding C08-set-display-quoted-in-message): the reports may differ inside the quoted braces only
+        stree = os.path.join(scratch.root, "settree"); os.makedirs(stree)
+        open(os.path.join(stree, "perm.py"), "w").write("import os\nos.chmod({'alpha', 'beta', 'gamma'}, 0o777)\nos.chmod('/etc/x', 0o777)\nimport pickle\n")
+        texts_ = {}
+        for sd in (0, 1, 2, 3):
+            out = os.path.join(scratch.root, f"set_{sd}")
+            rc, so, se = cli_subprocess(["-r", "settree", "-f", "json", "-o", out, "-q"], scratch.root, sd)
+            res.case(("hashseed-set-display", sd), True)
+            if os.path.exists(out):
+                texts_[sd] = strip_volatile("json", open(out, encoding="utf-8").read())
+        if len(set(texts_.values())) > 1:
+            norm_ = lambda t: re.sub(r"\(\{('[a-z]+'(?:, )?)+\}\)", lambda m: "({" + ", ".join(sorted(re.findall(r"'[a-z]+'", m.group(0)))) + "})", t)
+            if len({norm_(t) for t in texts_.values()}) == 1:
+                res.known_finding("C08-set-display-quoted-in-message")
+            else:
+                a_, b_ = list(texts_.values())[:2]
+                res.violation("two runs over the same inputs produced different machine-readable reports (beyond the quoted set display of the listed known finding)",
+                              {"program": "import os / os.chmod({'alpha', 'beta', 'gamma'}, 0o777) / os.chmod('/etc/x', 0o777) / import pickle", "a": a_[:800], "b": b_[:800]})
         # ---------------- (3b) several reports written in ONE process: what an earlier report contained must not show in a later one (seeded change C08-m7 kept SARIF
         #      rule descriptors — whose precision / tags come from the first finding of the rule — in a module-level cache across reports)
         pairs_ = [("cur.execute('SELECT a FROM t WHERE b = %s' % x)\nq = 'DELETE FROM t WHERE c = ' + y\n", "q = 'SELECT a FROM t WHERE b = %s' % x\ncur.execute('UPDATE t SET c = ' + y)\n"),
